@@ -224,6 +224,12 @@ def Prov.keyFor (p : Prov) (tag : Option String) (fm : FieldMeta) (schemaKey : S
   | .empty => schemaKey
   | _ => Zog.Engine.keyFor tag fm schemaKey
 
+/-- is the pointer node's value absent? -/
+def ptrAbsent (m : Mode) (v : Val) (d : DVal) : Bool :=
+  match m with
+  | .parse => isParseZero v
+  | .validate => d.isNilPtr
+
 def zipIdx3 : List Val → List DVal → Nat → List (Val × DVal × Nat)
   | v :: vs, d :: ds, i => (v, d, i) :: zipIdx3 vs ds (i + 1)
   | _, _, _ => []
@@ -252,9 +258,7 @@ def proc (env : Env) (f : Facts) (m : Mode) : Schema → Option String → Child
             | none => let a := addIssue fl st (coerceIssue env ps "slice"); .inl (a.1, d, a.2)
             | some xs => .inr (xs, xs.map (fun _ => sm.zeroElem))
         | .validate =>
-          let cur := match d with
-            | .slice xs => xs
-            | _ => []
+          let cur := d.elems
           if cur.isEmpty then
             match sm.dfltD with
             | some ds => .inr (ds.map (fun _ => Val.nil), ds)
@@ -272,19 +276,12 @@ def proc (env : Env) (f : Facts) (m : Mode) : Schema → Option String → Child
         (t.1, dest, t.2)
     runPosts env false "slice" ps sm.posts body
   | .ptr elem zp notNil, tag, fl, path, v, d, st =>
-    let absent := match m with
-      | .parse => isParseZero v
-      | .validate => match d with
-        | .ptr (some _) => false
-        | _ => true
-    if absent then
+    if ptrAbsent m v d then
       match notNil with
       | some t => let a := addIssue fl st (issueOfTest env (render path) elem.dtype t); (a.1, d, a.2)
       | none => (fl, d, st)
     else
-      let inner := match d with
-        | .ptr (some x) => x
-        | _ => zp
+      let inner := d.pointee zp
       let c := proc env f m elem tag ⟨false, false⟩ path v inner st
       (fl, .ptr (some c.2.1), c.2.2)
   | .struct fs tests posts, tag, fl, path, v, d, st =>
